@@ -134,6 +134,11 @@ def gen_case(rng, force=(), forbid=()):
             w = 4
         weights.append(w)
     n_ops = rng.choice([4, 6, 8, 10, 14, 18, 25])
+    # rarely the whole history runs far down the caller's stack (recursion
+    # headroom is part of the environment a library is called in)
+    caller_depth = rng.choice([250, 500, 700, 850]) if rng.random() < 0.04 else 0
+    p_deep = 0.3 if caller_depth else rng.choice([0.0, 0.0, 0.0, 0.02])
+    p_wrap = rng.choice([0.0, 0.0, 0.1, 0.3])
     p_np = rng.choice([0.0, 0.05, 0.15])
     p_repeat = rng.choice([0.1, 0.2, 0.35])
     p_feed = rng.choice([0.0, 0.1, 0.2])
@@ -151,6 +156,11 @@ def gen_case(rng, force=(), forbid=()):
             arg = {"res": rng.choice(accepted)}
         elif rng.random() < p_np:
             arg = {"np": 1}
+        elif rng.random() < p_deep:
+            val = gen.deep_value(rng)
+            if getattr(node, "properties", None) is not None:
+                val = {"zz": val}
+            arg = {"v": val}
         else:
             # steer towards a mix of accepted and rejected values
             want_accept = rng.random() < 0.5
@@ -161,6 +171,8 @@ def gen_case(rng, force=(), forbid=()):
                     break
                 val = gen.gen_value(rng, node)
             arg = {"v": val}
+            if rng.random() < p_wrap:
+                arg["wrap"] = rng.choice(["defaultdict", "OrderedDict", "subclass"])
         ops.append({"op": "call", "path": path, "arg": arg})
         calls.append(len(ops) - 1)
         if "v" in arg:
@@ -174,6 +186,7 @@ def gen_case(rng, force=(), forbid=()):
         "ops": ops,
         "swarm": swarm_desc,
         "pristine": rng.random() < 0.3,
+        "caller_depth": caller_depth,
     }
 
 
@@ -212,13 +225,51 @@ def _resolve_op(ops, index):
     return index
 
 
+class DictSub(dict):
+    """A plain dict subclass."""
+
+
+class ListSub(list):
+    """A plain list subclass."""
+
+
+def wrap_value(value, kind):
+    """The same data in another container type (dict/list subclasses are
+    dicts and lists as far as JSON Schema is concerned)."""
+    import collections
+
+    if isinstance(value, dict):
+        inner = {k: wrap_value(v, kind) for k, v in value.items()}
+        if kind == "defaultdict":
+            return collections.defaultdict(lambda: 0, inner)
+        if kind == "OrderedDict":
+            return collections.OrderedDict(inner)
+        if kind == "subclass":
+            return DictSub(inner)
+        return inner
+    if isinstance(value, list):
+        inner = [wrap_value(v, kind) for v in value]
+        return ListSub(inner) if kind == "subclass" else inner
+    return value
+
+
+def _at_depth(fn, depth):
+    """Call fn() from `depth` additional frames down the stack."""
+    if depth <= 0:
+        return fn()
+    return _at_depth(fn, depth - 1)
+
+
 def _materialise(tree, ops, call_index, world):
     """Value for call op `call_index` on `tree` (recursively for fed results)."""
     arg = ops[call_index]["arg"]
     if "np" in arg:
         return NotPassed()
     if "v" in arg:
-        return copy.deepcopy(arg["v"])
+        value = copy.deepcopy(arg["v"])
+        if arg.get("wrap"):
+            value = wrap_value(value, arg["wrap"])
+        return value
     src = _resolve_op(ops, arg["res"])
     if src not in tree.results:
         val = _materialise(tree, ops, src, world)
@@ -273,8 +324,17 @@ def exec_case(case, log, stats):
         target = live_resolve(live.built, call["path"])
         value = _materialise(live, ops, call_idx, world)
         before = norm(value)
-        verdict, result, exc = attempt(target, value)
+        depth_here = case.get("caller_depth", 0)
+        if depth_here:
+            verdict, result, exc = attempt(_at_depth, lambda: target(value), depth_here)
+        else:
+            verdict, result, exc = attempt(target, value)
         nres = norm(result) if verdict == "accept" else None
+        if verdict == "escape:RecursionError":
+            # the stack ran out: no verdict at all, nothing to compare
+            stats.inc("recursion_exhausted(no verdict)")
+            log.add(idx, "no_verdict")
+            continue
         log.add(idx, op["op"], call["path"], verdict, nres)
         stats.inc("calls")
         depth = len(call["path"])
@@ -291,6 +351,10 @@ def exec_case(case, log, stats):
             stats.inc(verdict)
         if "np" in call["arg"]:
             stats.inc("notpassed_calls")
+        if call["arg"].get("wrap"):
+            stats.inc("inputs_in_other_container_types")
+        if depth_here:
+            stats.inc("calls_from_deep_caller_stack")
         if "res" in call["arg"]:
             stats.inc("fed_results")
         # 1. input unchanged
